@@ -250,6 +250,8 @@ pub enum Op {
     GetCP(u8),
     /// concurrent cache: a second handle is created (`clone()`) and dropped again
     CloneDrop,
+    /// single-threaded cache: invalidate(k) during which `Drop` of the removed value panics
+    InvDP(u8),
 }
 
 impl Op {
@@ -274,6 +276,7 @@ impl Op {
             Op::InsCP(_) => "insert-clone-panics",
             Op::GetCP(_) => "get-clone-panics",
             Op::CloneDrop => "clone-and-drop-handle",
+            Op::InvDP(_) => "invalidate-drop-panics",
         }
     }
     pub fn text(&self) -> String {
@@ -298,6 +301,7 @@ impl Op {
             Op::IterAdv(n) => format!("iteradv({n})"),
             Op::IterInvAll => "iterinvall".into(),
             Op::CloneDrop => "clonedrop".into(),
+            Op::InvDP(k) => format!("invdp({k})"),
         }
     }
     pub fn parse(s: &str) -> Op {
@@ -340,6 +344,7 @@ impl Op {
             "inscp" => Op::InsCP(n(0)),
             "getcp" => Op::GetCP(n(0)),
             "clonedrop" => Op::CloneDrop,
+            "invdp" => Op::InvDP(n(0)),
             _ => panic!("bad op {s}"),
         }
     }
@@ -539,6 +544,16 @@ impl Sut {
                 }
                 Op::IterInvAll => panic!("harness: the unsync cache cannot be invalidated while an iterator borrows it"),
                 Op::CloneDrop => panic!("harness: the unsync cache has one owner"),
+                Op::InvDP(k) => {
+                    DROP_PANICS_NOW.store(true, std::sync::atomic::Ordering::SeqCst);
+                    let panicked = cb_guard(|| c.invalidate(&K::probe(k)));
+                    DROP_PANICS_NOW.store(false, std::sync::atomic::Ordering::SeqCst);
+                    if panicked {
+                        Obs::CbPanic(vec![])
+                    } else {
+                        Obs::Unit
+                    }
+                }
             },
             Sut::S { c, clock } => match op {
                 Op::Ins(k, w) => {
@@ -606,6 +621,7 @@ impl Sut {
                     drop(c.clone());
                     Obs::Unit
                 }
+                Op::InvDP(_) => panic!("harness: invdp is an operation of the unsync cache"),
                 Op::IterInvAll => {
                     // (no map guard is held before the first next())
                     let it = c.iter();
@@ -805,6 +821,9 @@ pub fn alphabet(cfg: &Cfg) -> Vec<Op> {
             } else {
                 a.push(Op::InvIf(Pred::PanicAt1));
                 a.push(Op::InvIf(Pred::Keys(0b001)));
+                // (`invdp` - an invalidation during which the value's destructor panics - is
+                // implemented but deliberately NOT part of any alphabet: DESIGN.md section 8,
+                // round 19)
             }
             a.push(Op::InvAll);
             a.push(Op::Iter);
